@@ -60,7 +60,7 @@ Inductive expr :=
 | EGetAttr (e k : expr)                   (* getattr(e, k) *)
 | EHasAttr (e k : expr)                   (* hasattr(e, k) *)
 | EVars (e : expr)                        (* vars(e), read only: the attributes as a dict *)
-| EGetItem (d k : expr)                   (* d[k]: dict lookup, or list / tuple at a number *)
+| EGetItem (d k : expr)                   (* d[k]: dict lookup, or list / tuple / string at a number *)
 | EDictGet (d k dflt : expr)              (* d.get(k, dflt) *)
 | ECopy (e : expr)                        (* e.copy() of a dict or list *)
 | EKeys (e : expr)                        (* d.keys() / iterating d: the keys, as a list *)
@@ -77,7 +77,15 @@ Inductive expr :=
 | EAny (body : expr) (x : string) (iter : expr)       (* any(body for x in iter) *)
 | ERec (cls : string) (fields : list (string * expr)) (* cls(f1=e1, ...): a new object (a NamedTuple / record) *)
 | ESortKey (e : expr) (x : string) (key : expr) (rev : bool)   (* sorted(e, key=lambda x: key[, reverse=True]): stable, numeric key *)
-| ECountDistinct (e : expr).                          (* len(set(e)) *)
+| ECountDistinct (e : expr)                           (* len(set(e)) *)
+(* seventh group (the docstring scanner: character-level string code) *)
+| EStrip (e : expr)                       (* e.strip() *)
+| EPartition (e : expr) (sep : string)    (* e.partition(sep): the 3-tuple (before, sep or "", after) *)
+| EIsIdent (e : expr)                     (* e.isidentifier() on ASCII text *)
+| ESplitN (e sep : expr) (n : nat)        (* e.split(sep, maxsplit=n) with a non-empty separator *)
+| ESlice (e : expr) (lo hi : option expr) (* e[lo:hi] on strings, lists, tuples (natural bounds; an absent bound is the end) *)
+| EIndexOf (e tok : expr)                 (* e.index(tok) on strings: where the first occurrence starts, else ValueError *)
+| ERange (a b : expr).                    (* range(a, b), as the list of its numbers *)
 
 Inductive stmt :=
 | SAssign (x : string) (e : expr)
@@ -331,6 +339,7 @@ Definition op_getitem (d k : res val) : res val :=
   bind2 d k (fun x kv => match x, kv with
                          | VD l, _ => match dget kv l with Some v => Ok v | None => Err (Raise "KeyError") end
                          | VL l, VN n | VT l, VN n => match nth_error l n with Some v => Ok v | None => Err (Raise "IndexError") end
+                         | VS s, VN n => match String.get n s with Some c => Ok (VS (String c "")) | None => Err (Raise "IndexError") end
                          | _, _ => rerr end).
 Definition op_dictget (d k dflt : res val) : res val :=
   match d, k, dflt with
@@ -533,6 +542,93 @@ Definition ret_to (t : string) (o : option val) (back : res (env * option val)) 
   | Err z => Err z
   end.
 
+(* ---------- seventh group: strings by characters ---------- *)
+Fixpoint skip_chars (n : nat) (s : string) : string :=
+  match n, s with S k, String _ r => skip_chars k r | _, _ => s end.
+(* first (leftmost) occurrence of the non-empty token: (text before it, text after it) *)
+Fixpoint split_first (tok s : string) : option (string * string) :=
+  match s with
+  | EmptyString => None
+  | String a r =>
+      if prefixb tok s then Some (EmptyString, skip_chars (String.length tok) s)
+      else match split_first tok r with Some (x, y) => Some (String a x, y) | None => None end
+  end.
+Fixpoint split_n (n : nat) (tok s : string) : list string :=
+  match n with
+  | O => [s]
+  | S k => match split_first tok s with Some (a, b) => a :: split_n k tok b | None => [s] end
+  end.
+Fixpoint str_all (p : ascii -> bool) (s : string) : bool :=
+  match s with EmptyString => true | String a r => p a && str_all p r end.
+Definition is_lower_c (a : ascii) : bool := let n := ascii_nat a in Nat.leb 97 n && Nat.leb n 122.
+Definition is_id_start (a : ascii) : bool := is_upper a || is_lower_c a || Ascii.eqb a "_"%char.
+Definition is_id_char (a : ascii) : bool := is_id_start a || is_digit a.
+Definition is_ident (s : string) : bool :=
+  match s with EmptyString => false | String a r => is_id_start a && str_all is_id_char r end.
+Definition op_strip (a : res val) : res val :=
+  match a with Ok (VS s) => Ok (VS (strip s)) | Ok _ => rerr | Err z => Err z end.
+Definition op_partition (sep : string) (a : res val) : res val :=
+  match a with
+  | Ok (VS s) => match sep with
+                 | EmptyString => Err (Raise "ValueError")
+                 | _ => match split_first sep s with
+                        | Some (x, y) => Ok (VT [VS x; VS sep; VS y])
+                        | None => Ok (VT [VS s; VS ""; VS ""])
+                        end
+                 end
+  | Ok _ => rerr | Err z => Err z end.
+Definition op_isident (a : res val) : res val :=
+  match a with Ok (VS s) => Ok (VB (is_ident s)) | Ok _ => rerr | Err z => Err z end.
+(* a method call evaluates the receiver, looks the method up (a receiver that is not a string fails here), then the arguments *)
+Definition op_splitn (n : nat) (a sep : res val) : res val :=
+  match a with
+  | Err z => Err z
+  | Ok (VS s) => match sep with
+                 | Err z => Err z
+                 | Ok (VS EmptyString) => Err (Raise "ValueError")
+                 | Ok (VS tok) => Ok (VL (map VS (split_n n tok s)))
+                 | Ok _ => rerr
+                 end
+  | Ok _ => rerr
+  end.
+Definition op_slice (a : res val) (lo hi : option (res val)) : res val :=
+  match a with
+  | Err z => Err z
+  | Ok x =>
+      match (match lo with None | Some (Ok VNone) => Ok (VN 0) | Some l => l end) with      (* a bound that is None is an absent bound *)
+      | Err z => Err z
+      | Ok (VN l) =>
+          match (match hi with Some (Ok VNone) => None | _ => hi end) with
+          | None => match x with
+                    | VS s => Ok (VS (String.substring l (String.length s - l) s))
+                    | VL v => Ok (VL (skipn l v))
+                    | VT v => Ok (VT (skipn l v))
+                    | _ => rerr end
+          | Some (Err z) => Err z
+          | Some (Ok (VN h)) => match x with
+                                | VS s => Ok (VS (String.substring l (h - l) s))
+                                | VL v => Ok (VL (skipn l (firstn h v)))
+                                | VT v => Ok (VT (skipn l (firstn h v)))
+                                | _ => rerr end
+          | Some (Ok _) => rerr
+          end
+      | Ok _ => match hi with Some (Err z) => Err z | _ => rerr end
+      end
+  end.
+Definition op_indexof (a tok : res val) : res val :=
+  match a with
+  | Err z => Err z
+  | Ok (VS s) => match tok with
+                 | Err z => Err z
+                 | Ok (VS EmptyString) => Ok (VN 0)
+                 | Ok (VS t) => match split_first t s with Some (b, _) => Ok (VN (String.length b)) | None => Err (Raise "ValueError") end
+                 | Ok _ => rerr
+                 end
+  | Ok _ => rerr
+  end.
+Definition op_range (a b : res val) : res val :=
+  bind2 a b (fun x y => match x, y with VN m, VN n => Ok (VL (map VN (seq m (n - m)))) | _, _ => rerr end).
+
 Fixpoint eval (r : env) (e : expr) {struct e} : res val :=
   let evals := fix evals (es : list expr) : res (list val) :=
     match es with
@@ -679,6 +775,14 @@ Fixpoint eval (r : env) (e : expr) {struct e} : res val :=
                                    | Some l => all_list (fun v => eval (assign x v r) body) l
                                    | None => rerr end
                         | Err z => Err z end
+  | EStrip a => op_strip (eval r a)
+  | EPartition a sep => op_partition sep (eval r a)
+  | EIsIdent a => op_isident (eval r a)
+  | ESplitN a sep n => op_splitn n (eval r a) (eval r sep)
+  | ESlice a lo hi => op_slice (eval r a) (match lo with Some x => Some (eval r x) | None => None end)
+                                          (match hi with Some x => Some (eval r x) | None => None end)
+  | EIndexOf a tok => op_indexof (eval r a) (eval r tok)
+  | ERange a b => op_range (eval r a) (eval r b)
   end.
 
 (* statements: the result is the new environment and, when a `return` was executed, the returned value *)
